@@ -617,18 +617,18 @@ macro_rules! lx_single_quoted_harness {
                         } else {
                             assert!(lx.errors.len() == pre.err_n + 1 && lx.errors[pre.err_n].error_kind() == ErrorKind::InvalidHexStringConstant, "C07: invalid hex literal is reported");
                             assert!(lx.errors[pre.err_n].last_token().map(|x| x.get() as usize) == Some(pre.tok_n), "C09: hex error names the literal token");
-                            check_payload::<$k, $b, { $k + 2 }>(&t, 1, close, &kept, tk.payload, pre.lit_n);
+                            check_payload::<$k, $b, { $k + 1 }>(&t, 1, close, &kept, tk.payload, pre.lit_n);
                         }
                     } else {
                         assert!(lx.errors.len() == pre.err_n, "C06: terminated literal reports no error");
-                        check_payload::<$k, $b, { $k + 2 }>(&t, 1, close, &kept, tk.payload, pre.lit_n);
+                        check_payload::<$k, $b, { $k + 1 }>(&t, 1, close, &kept, tk.payload, pre.lit_n);
                     }
                 } else {
                     assert!(pi == t.n, "C06: unterminated literal runs to the end of input");
                     assert!(tk.token_type == TokenType::StringLiteral, "C06: unterminated literal type");
                     assert!(lx.errors.len() == pre.err_n + 1 && lx.errors[pre.err_n].error_kind() == ErrorKind::UnterminatedStringLiteral, "C06: unterminated literal is reported");
                     assert!(lx.errors[pre.err_n].last_token().map(|x| x.get() as usize) == Some(pre.tok_n), "C06/C09: the unterminated error names the literal token");
-                    check_payload::<$k, $b, { $k + 2 }>(&t, 1, t.n, &kept, tk.payload, pre.lit_n);
+                    check_payload::<$k, $b, { $k + 1 }>(&t, 1, t.n, &kept, tk.payload, pre.lit_n);
                 }
                 assert!(lx.mode_stack.len() == pre.stack_len);
                 kani::cover!(close <= $k && matches!(tk.payload, Payload::StringLiteral(..)) && tk.token_type == TokenType::NameLiteral, "suffixed literal with an escaped quote");
@@ -941,7 +941,7 @@ macro_rules! lx_str_call_scan_harness {
                 let tk = shadow::tok(pre.tok_n);
                 assert!(tk.token_type == TokenType::MacroString && tk.channel == TokenChannel::DEFAULT, "C06: %str text token");
                 assert!(tk.byte_offset.get() as usize == t.byte_at(pre.pi), "C02: %str text starts at the scanner's start");
-                check_payload::<$k, $b, { $k + 2 }>(&t, pre.pi, stop, &kept, tk.payload, pre.lit_n);
+                check_payload::<$k, $b, { $k + 1 }>(&t, pre.pi, stop, &kept, tk.payload, pre.lit_n);
                 assert!(lx.errors.len() == pre.err_n, "C01: %str scanner reports no error");
                 if end_rparen {
                     assert!(lx.mode_stack.len() == pre.stack_len - 1, "C13: the closing ')' at depth 0 ends the %str text");
@@ -966,3 +966,177 @@ lx_str_call_scan_harness!(2, 12, 4, lx_str_call_scan_k2, &[]);
 lx_str_call_scan_harness!(3, 16, 5, lx_str_call_scan_esc_k3, &['%', '(']);
 lx_single_quoted_harness!(3, 16, 5, lx_single_quoted_k3, &['\'']);
 lx_single_quoted_harness!(5, 24, 7, lx_single_quoted_esc_k5, &['\'', '\'', '\'']);
+
+// =============================================================================================
+// End of input: finalize_lexing unwinds every pending mode (C10, C14, C09, C02)
+
+pub(crate) fn missing_kind(tt: TokenType) -> ErrorKind {
+    match tt {
+        TokenType::RPAREN => ErrorKind::MissingExpectedRParen,
+        TokenType::ASSIGN => ErrorKind::MissingExpectedAssign,
+        TokenType::LPAREN => ErrorKind::MissingExpectedLParen,
+        TokenType::COMMA => ErrorKind::MissingExpectedComma,
+        _ => ErrorKind::MissingExpectedFSlash,
+    }
+}
+
+/// Runs finalize_lexing at end of input on the given stack (tags constant, parameters symbolic) and
+/// compares tokens and errors with the reference unwinding: every pending expectation, open
+/// parenthesis level and open string expression is closed by a virtual token and reported.
+pub(crate) fn run_finalize(modes: &[LexerMode], last_is_str_start: bool) {
+    let t = Txt::<1, 8>::any(PFX, &[]);
+    kani::assume(t.n == 0);
+    let mut lx = setup(&t, modes);
+    // one earlier token: the look-behind of handle_unterminated_str_expr
+    let eof_b = t.len as u32;
+    shadow::preload_token(shadow::mk_token(TokenChannel::DEFAULT, if last_is_str_start { TokenType::StringExprStart } else { TokenType::MacroString }, eof_b - 1, t.pre_c - 1, 1, Payload::None));
+    let pre = snapshot(&lx, &t);
+    lx.finalize_lexing();
+    assert!(lx.cur_byte_offset().get() == eof_b && lx.mode_stack.is_empty(), "C10: finalize_lexing unwinds the whole mode stack");
+    assert!(shadow::line_n() as u32 == 1 + t.pre_nl, "C04: finalize_lexing adds no line");
+    // reference unwinding, top of stack first
+    let mut exp_tok: [(TokenType, TokenChannel); 8] = [(TokenType::EOF, TokenChannel::DEFAULT); 8];
+    assert!(modes.len() <= 5, "harness: finalize stacks are at most 5 modes deep");
+    let mut nt = 0usize;
+    let mut exp_err: [ErrorKind; 8] = [ErrorKind::FileTooLarge; 8];
+    let mut ne = 0usize;
+    let mut retyped = false;
+    let mut start_pending = last_is_str_start;
+    let mut m = modes.len();
+    while m > 0 {
+        m -= 1;
+        match &modes[m] {
+            LexerMode::ExpectSymbol(tt, ch) => {
+                exp_err[ne] = missing_kind(*tt);
+                ne += 1;
+                exp_tok[nt] = (*tt, *ch);
+                nt += 1;
+                start_pending = false;
+            }
+            LexerMode::ExpectSemiOrEOF | LexerMode::MacroDo => {
+                exp_tok[nt] = (TokenType::SEMI, TokenChannel::DEFAULT);
+                nt += 1;
+                start_pending = false;
+            }
+            LexerMode::MacroStrQuotedExpr { pnl, .. } | LexerMode::MacroCallValue { pnl, .. } | LexerMode::MacroEval { pnl, .. } => {
+                if *pnl > 0 {
+                    exp_err[ne] = ErrorKind::MissingExpectedRParen;
+                    ne += 1;
+                    let mut q = 0;
+                    while q < 2 {
+                        if q < *pnl {
+                            exp_tok[nt] = (TokenType::RPAREN, TokenChannel::DEFAULT);
+                            nt += 1;
+                        }
+                        q += 1;
+                    }
+                    start_pending = false;
+                }
+            }
+            LexerMode::StringExpr { .. } => {
+                exp_err[ne] = ErrorKind::UnterminatedStringLiteral;
+                ne += 1;
+                if start_pending {
+                    retyped = true;
+                    start_pending = false;
+                } else {
+                    exp_tok[nt] = (TokenType::StringExprEnd, TokenChannel::DEFAULT);
+                    nt += 1;
+                }
+            }
+            LexerMode::MacroNameExpr(_, Some(e)) => {
+                exp_err[ne] = *e;
+                ne += 1;
+            }
+            LexerMode::MacroDefName => {
+                exp_err[ne] = ErrorKind::InvalidMacroDefName;
+                ne += 1;
+            }
+            _ => {}
+        }
+    }
+    exp_tok[nt] = (TokenType::EOF, TokenChannel::DEFAULT);
+    nt += 1;
+    assert!(shadow::tok_n() == pre.tok_n + nt, "C10/C14: number of closing tokens supplied at end of input");
+    assert!(nt <= 6 && ne <= 6);
+    let mut j = 0;
+    while j < 6 {
+        if j < nt {
+            let tk = shadow::tok(pre.tok_n + j);
+            assert!(tk.token_type == exp_tok[j].0 && tk.channel == exp_tok[j].1, "C10/C14: closing token supplied at end of input (type/channel/order)");
+            assert!(tk.byte_offset.get() == eof_b && tk.start.get() == t.pre_c, "C02/C09: virtual tokens and EOF sit at the end of the text");
+        }
+        j += 1;
+    }
+    assert!(lx.errors.len() == pre.err_n + ne, "C09/C14: one error per missing closer at end of input");
+    let mut j = 0;
+    while j < 6 {
+        if j < ne {
+            assert!(lx.errors[pre.err_n + j].error_kind() == exp_err[j], "C09/C14: kind of the error reported for a missing closer");
+            assert!(lx.errors[pre.err_n + j].at_byte_offset() == eof_b, "C09/C14: missing closer reported where it was expected");
+        }
+        j += 1;
+    }
+    let first = shadow::tok(pre.tok_n - 1);
+    if retyped {
+        assert!(first.token_type == TokenType::StringLiteral, "C10: an unterminated literal's start token becomes the literal");
+    } else {
+        assert!(first.token_type == if last_is_str_start { TokenType::StringExprStart } else { TokenType::MacroString }, "C01: earlier tokens are not rewritten");
+    }
+    std::mem::forget(lx);
+}
+
+macro_rules! lx_finalize_harness {
+    ($name:ident, $pnl:literal, $modes:expr) => {
+        lx_harness! {
+            #[kani::unwind(7)]
+            fn $name() {
+                // nesting depths are constants of the instance (the recovery loop runs pnl times)
+                let pnl: u32 = $pnl;
+                let pnl2: u32 = 1;
+                let ef = any_eval_flags();
+                let af = any_arg_flags();
+                let b1: bool = kani::any();
+                let _ = (pnl, pnl2, ef, af, b1);
+                let mk = $modes;
+                let modes_arr = mk(pnl, pnl2, ef, af, b1);
+                let modes: &[LexerMode] = &modes_arr;
+                let lb: bool = kani::any();
+                run_finalize(modes, lb);
+                kani::cover!(lb);
+                kani::cover!(!lb);
+            }
+        }
+    };
+}
+
+// "%eval(1  : string expression below a pending ')' below an eval expression
+lx_finalize_harness!(lx_finalize_str_expect_eval_p0, 0, |pnl, _p2, ef, _af, b1| [LexerMode::Default, LexerMode::StringExpr { allow_stat: b1 }, LexerMode::ExpectSymbol(TokenType::RPAREN, TokenChannel::DEFAULT), LexerMode::MacroEval { macro_eval_flags: ef, pnl }]);
+lx_finalize_harness!(lx_finalize_str_expect_eval_p2, 2, |pnl, _p2, ef, _af, b1| [LexerMode::Default, LexerMode::StringExpr { allow_stat: b1 }, LexerMode::ExpectSymbol(TokenType::RPAREN, TokenChannel::DEFAULT), LexerMode::MacroEval { macro_eval_flags: ef, pnl }]);
+// %do %while( ... at end of input
+lx_finalize_harness!(lx_finalize_while_p1, 1, |pnl, _p2, ef, _af, _b1| [LexerMode::ExpectSemiOrEOF, LexerMode::WsOrCStyleCommentOnly, LexerMode::ExpectSymbol(TokenType::RPAREN, TokenChannel::DEFAULT), LexerMode::MacroEval { macro_eval_flags: ef, pnl }]);
+// %str( / %nrstr( with nested parens, inside a user macro call argument
+lx_finalize_harness!(lx_finalize_str_call_p2, 2, |pnl, p2, _ef, af, b1| [LexerMode::ExpectSymbol(TokenType::RPAREN, TokenChannel::DEFAULT), LexerMode::MacroCallValue { flags: af, pnl: p2 }, LexerMode::ExpectSymbol(TokenType::RPAREN, TokenChannel::HIDDEN), LexerMode::MacroStrQuotedExpr { mask_macro: b1, pnl }]);
+// %let a  (name, '=', value, ';' all pending) ; trailing %do
+lx_finalize_harness!(lx_finalize_let_p0, 0, |_pnl, _p2, _ef, _af, b1| [LexerMode::ExpectSemiOrEOF, LexerMode::MacroSemiTerminatedTextExpr, LexerMode::ExpectSymbol(TokenType::ASSIGN, TokenChannel::DEFAULT), LexerMode::WsOrCStyleCommentOnly, LexerMode::MacroNameExpr(b1, Some(ErrorKind::InvalidMacroLetVarName))]);
+lx_finalize_harness!(lx_finalize_do_p0, 0, |_pnl, _p2, _ef, _af, b1| [LexerMode::Default, LexerMode::StringExpr { allow_stat: b1 }, LexerMode::MacroDo, LexerMode::WsOrCStyleCommentOnly]);
+// %if (a   : open parenthesis with nothing expected below
+lx_finalize_harness!(lx_finalize_if_paren_p1, 1, |pnl, _p2, ef, _af, b1| [LexerMode::Default, LexerMode::StringExpr { allow_stat: b1 }, LexerMode::MacroEval { macro_eval_flags: ef, pnl }]);
+lx_finalize_harness!(lx_finalize_if_paren_p2, 2, |pnl, _p2, ef, _af, b1| [LexerMode::Default, LexerMode::StringExpr { allow_stat: b1 }, LexerMode::MacroEval { macro_eval_flags: ef, pnl }]);
+// %scan(a  : ',' and ')' pending above an argument with open parentheses
+lx_finalize_harness!(lx_finalize_scan_p1, 1, |pnl, _p2, ef, af, _b1| [LexerMode::ExpectSymbol(TokenType::RPAREN, TokenChannel::DEFAULT), LexerMode::MacroEval { macro_eval_flags: ef, pnl: 0 }, LexerMode::ExpectSymbol(TokenType::COMMA, TokenChannel::DEFAULT), LexerMode::MacroCallValue { flags: af, pnl }]);
+// %copy x , %macro at end of input, nested string expressions
+lx_finalize_harness!(lx_finalize_copy_p0, 0, |_pnl, _p2, _ef, _af, _b1| [LexerMode::ExpectSemiOrEOF, LexerMode::MacroStatOptionsTextExpr, LexerMode::ExpectSymbol(TokenType::FSLASH, TokenChannel::DEFAULT), LexerMode::MaybeMacroDefArgs, LexerMode::MacroDefName]);
+lx_finalize_harness!(lx_finalize_nested_str_p0, 0, |_pnl, _p2, _ef, _af, b1| [LexerMode::Default, LexerMode::StringExpr { allow_stat: b1 }, LexerMode::ExpectSymbol(TokenType::LPAREN, TokenChannel::DEFAULT), LexerMode::StringExpr { allow_stat: !b1 }]);
+
+lx_harness! {
+    #[kani::unwind(7)]
+    fn twin_lx_finalize() {
+        let modes = [LexerMode::Default, LexerMode::StringExpr { allow_stat: kani::any() }, LexerMode::ExpectSymbol(TokenType::RPAREN, TokenChannel::DEFAULT)];
+        let t = Txt::<1, 8>::any(PFX, &[]);
+        kani::assume(t.n == 0);
+        let mut lx = setup(&t, &modes);
+        lx.finalize_lexing();
+        assert!(false, "TWIN: reachable");
+    }
+}
